@@ -698,6 +698,9 @@ func c10RunTyped(src string) []string {
 	e := env.NewEnv()
 	var trace []string
 	e.Define("probe", func(x interface{}) interface{} { trace = append(trace, "("+c10ProjT(x)+")"); return x })
+	e.DefineType("int8", int8(0))
+	e.DefineType("uint8", uint8(0))
+	e.DefineType("uint16", uint16(0))
 	func() {
 		defer func() {
 			if p := recover(); p != nil {
@@ -737,6 +740,11 @@ func c10Main(seed uint64, n int, outDir string) error {
 			}
 		}
 	}
-	mb, _ := json.Marshal(map[string]interface{}{"untyped": progs, "typed_problems": problems, "typed_count": typedCount, "typed_kinds": kinds})
+	var tcases []c10tCase
+	trnd := NewRand(seed, "c10t")
+	for i := 0; i < n; i++ {
+		tcases = append(tcases, c10tGen(trnd.Fork("h")))
+	}
+	mb, _ := json.Marshal(map[string]interface{}{"untyped": progs, "typed_problems": problems, "typed_count": typedCount, "typed_kinds": kinds, "typed_model": tcases})
 	return os.WriteFile(filepath.Join(outDir, "c10.json"), mb, 0o644)
 }
